@@ -398,6 +398,10 @@ def run(repo, rep, tier):
         def ok(self, rule, *a, **k):
             return self._rep.ok(self._rule, *a, **k) if rule == "R-C10-2" else None
     _m360(repo, _Only(rep, "R-C01-13"))
+    rep.rule("R-C01-14", "(shared with C20) a statistic that takes differences of a coordinate (hmax: the sea-state duration from the time axis) does so only under a test "
+                         "that the coordinate has at least two values: otherwise the statistic of a valid one-record spectrum is NaN")
+    from .c20 import diff_reductions as _dr
+    _dr(repo, _Relabel(rep, "R-C01-14"), "R-C01-14", modules=("wavespectra.specarray", "wavespectra.core.npstats", "wavespectra.core.xrstats"))
     rep.rule("R-C01-7", "every parameter of the functions behind this property is read (statistics): none is accepted and then ignored, and no control parameter (cutoff, limit, tolerance, window, count, switch) is replaced by another value before use (coercion and default filling aside)")
     from .shared import unused_parameters
     unused_parameters(repo, rep, "R-C01-7", ("wavespectra.specarray", "wavespectra.core.npstats", "wavespectra.core.xrstats", "wavespectra.core.utils"), "statistics")
